@@ -217,5 +217,7 @@ func C05(c *core.Ctx) {
 	ruleMultiSel(c, ruleSet("A-REJ", "A-NOEXTRA"), 3, "differing only in minimum", "differing only in maximum", "differing only in multipleOf")
 	// the same bounds under --min-sized-ints: a check is absent only where the Go type's range implies it
 	ruleSizedFamilies(c, []string{"required"}, 300)
+	// the numeric keywords reach the generator as written (a bound of 0 is a bound)
+	ruleFidelity(c, "minimum", "maximum", "multipleOf", "exclusiveMinimum", "exclusiveMaximum")
 	c.Floor("families", c.Counts["members"], 300, "family members")
 }
